@@ -50,6 +50,7 @@ func newInterpBase(cfg *Config) *interpBase {
 				panic(fmt.Sprintf("initialisation failed: %v @ %s", r, i.where()))
 			}
 		}()
+		i.presetOS()
 		call(i, nil, token.NoPos, cfg.Main.Func("init"), nil)
 	}()
 	return b
@@ -81,7 +82,22 @@ func (b *interpBase) newInterp(e *Engine) *interpreter {
 // initMutable re-runs the initialisers of the mutable packages (their init$guard
 // cells were just reset; immutable packages return at once from theirs).
 func (i *interpreter) initMutable() {
+	i.presetOS()
 	call(i, nil, token.NoPos, i.base.cfg.Main.Func("init"), nil)
+}
+
+// presetOS gives os.Args a value before package initialisers run (flag's init reads
+// os.Args[0]; package os itself is not initialised: it is the environment).
+func (i *interpreter) presetOS() {
+	if p := i.prog.ImportedPackage("os"); p != nil {
+		if g := p.Var("Args"); g != nil {
+			if c, ok := i.globals[g]; ok {
+				*c = []value{"jqawk"}
+			} else if c, ok := i.base.globals[g]; ok {
+				*c = []value{"jqawk"}
+			}
+		}
+	}
 }
 
 func (i *interpreter) where() string {
